@@ -73,6 +73,21 @@ let split_observed (obs : string) : string * string * string =
 
 let clip n s = if String.length s > n then String.sub s 0 n else s
 
+(* the records of a statement all of whose reader items are records *)
+let records_of (its : K.citem list) : K.z list list list option =
+  List.fold_right (fun it acc -> match it, acc with
+    | K.CRec r, Some l -> Some (r :: l) | _, _ -> None) its (Some [])
+
+(* the verdict `spec`: the extracted <importer>_statement_output (Spec/ImpStmtA.v, Spec/ImpStmtB.v), evaluated on the
+   records of a statement the generator calls well-formed, must be defined (the statement satisfies the hypothesis of
+   C13_<importer>_stdout) and be the standard output of the binary, byte for byte *)
+let statement_verdict (imp : string) (base : string) (out : K.z list option) : string =
+  match out with
+  | None -> "FAIL:" ^ imp ^ "_statement_wf: the statement is outside the hypothesis of C13_" ^ imp ^ "_stdout"
+  | Some o ->
+    if "OK " ^ esc (string_of_str o) = base then "ok"
+    else "FAIL:" ^ imp ^ "_statement_output: stdout is not the journal the specification prescribes for the statement"
+
 let run (imp : string) (inp : string) (obs : string) : string * string =
   let (fl, _, items) = split3 inp in
   let flags = flag_assoc fl in
